@@ -1,4 +1,4 @@
-\* control: without the exemption the native close deviation must be found (expected to FAIL)
+\* control: poll_close as it was before commit 05a3075 (no flush after SSL_shutdown) must lose the close alert (expected to FAIL)
 CONSTANTS
   Backends = {"native"}
   Shapes = {"t13"}
@@ -12,7 +12,7 @@ CONSTANTS
   PendingIsWouldBlock = TRUE
   MidResumes = TRUE
   FinalFlush = TRUE
-  FixNativeClose = FALSE
+  CloseFlushes = FALSE
   FixRustlsHsFlush = FALSE
 SPECIFICATION Spec
 INVARIANTS NoDeadlockStrict
